@@ -45,19 +45,19 @@ def _blocking(kind, n, p_size, bad, nd):
     h = p.imap(Fn(bad), list(range(n))) if kind == 'imap' else p.imap_unordered(Fn(bad), list(range(n)))
 
     def step():
-        movable = [x for x in p._pool if x.state == 'busy' or (x.state == 'idle' and p._inqueue.q)]
-        choices = len(movable) + (1 if p._outqueue.q else 0)
-        if choices == 0:
-            return False
-        k = nd.draw(0, 2) % choices
-        if k < len(movable):
-            x = movable[k]
-            if x.state == 'idle':
-                w.w_take(x)
-            else:
-                w.w_done(x)
-        else:
+        # one worker takes or finishes a part (symbolic choice of which), then the result handler catches up:
+        # the order in which results arrive is the order in which workers finish
+        if p._outqueue.q:
             w.rh()
+            return True
+        movable = [x for x in p._pool if x.state == 'busy' or (x.state == 'idle' and p._inqueue.q)]
+        if not movable:
+            return False
+        x = movable[nd.draw(0, 1) % len(movable)] if len(movable) > 1 else movable[0]
+        if x.state == 'idle':
+            w.w_take(x)
+        else:
+            w.w_done(x)
         return True
     h._cond = WorldCond(step)
     w.feed()                      # the task feeder announces the length after the last task
